@@ -383,6 +383,78 @@ pub fn run_c05_configs(rep: &Report, tier: Tier) {
             rep.add(hs.len() as u64, hs.len() as u64 * (1 + shard_counts.len() as u64), hs.len() as u64 * shard_counts.len() as u64, 0);
         }
     }
+    // contention family: two tracks A (x = 0) and B (x = 5) whose boxes overlap, then two detections that both
+    // prefer the same track, so that one of them has to fall back to its second choice; three id layouts (a far
+    // object listed first / in the middle / not at all) put A and B into the same or into different shards
+    {
+        let xs = [0.37f32, 1.13, 2.21, 3.07, 4.19, 4.83];
+        let far = Det::ltwh(400.0, 300.0, 10.0, 20.0);
+        let (a0, b0) = (Det::ltwh(0.0, 0.0, 10.0, 20.0), Det::ltwh(5.0, 0.0, 10.0, 20.0));
+        let layouts: Vec<Vec<Det>> = vec![vec![a0.clone(), b0.clone()], vec![a0.clone(), far.clone(), b0.clone()], vec![far.clone(), a0.clone(), b0.clone()], vec![b0.clone(), far.clone(), far.shift(50.0, 0.0), a0.clone()]];
+        let mut cases: Vec<Vec<Vec<Det>>> = vec![];
+        for l in &layouts {
+            for &x in &xs {
+                for &y in &xs {
+                    if x == y {
+                        continue;
+                    }
+                    let f2 = vec![Det::ltwh(x, 0.6, 10.0, 20.0), Det::ltwh(y, -0.4, 10.0, 20.0).conf(0.9)];
+                    let f3 = vec![Det::ltwh(y + 0.5, 0.0, 10.0, 20.0), Det::ltwh(x + 0.25, 0.3, 10.0, 20.0), Det::ltwh(2.6, 1.0, 10.0, 20.0).conf(0.8)];
+                    cases.push(vec![l.clone(), f2, f3]);
+                }
+            }
+        }
+        let cases = Arc::new(cases);
+        let mut runs = 0u64;
+        for kind in [Kind::Sort, Kind::BatchSort, Kind::VisualSort] {
+            for pos in [Pos::Iou(0.3), Pos::Maha] {
+                let mut base = TrkCfg::new(kind);
+                base.pos = pos;
+                base.max_idle = 2;
+                let (cs, b2) = (cases.clone(), base.clone());
+                let chunk = 8usize;
+                let nchunks = (cases.len() + chunk - 1) / chunk;
+                let outs = run_jobs(nchunks, move |ci| {
+                    let mut viol: Vec<(usize, String)> = vec![];
+                    for k in ci * chunk..((ci + 1) * chunk).min(cs.len()) {
+                        let run = |cfg: &TrkCfg| -> Vec<Vec<Rec>> {
+                            let mut t = Guarded::new(AnyTrk::new(cfg));
+                            cs[k].iter().map(|f| t.predict(0, f)).collect()
+                        };
+                        let reference = run(&b2);
+                        for shards in [2usize, 3, 4, 5] {
+                            let mut c = b2.clone();
+                            c.shards = shards;
+                            c.voting_shards = shards.min(2);
+                            let t = run(&c);
+                            let (mut m, mut rm) = (BTreeMap::new(), BTreeMap::new());
+                            for (i, (x, y)) in t.iter().zip(reference.iter()).enumerate() {
+                                if let Err(e) = same_records(x, y, &mut m, &mut rm, !b2.kind.is_batch()) {
+                                    viol.push((k, format!("{shards} shards vs 1 shard, call #{i}: {e}")));
+                                    break;
+                                }
+                            }
+                        }
+                    }
+                    viol
+                });
+                for o in outs {
+                    match o {
+                        Ok(v) => {
+                            for (k, what) in v {
+                                rep.violation(Violation { key: "shard-count/transcript-differs".into(), what, replay: json!({"part":"shard-count differential, contention family","config":base.json(),"frames":cases[k].iter().map(|f| f.iter().map(|d| d.json()).collect::<Vec<_>>()).collect::<Vec<_>>()}) });
+                            }
+                        }
+                        Err(e) => rep.violation(Violation { key: format!("{}/panic-or-deadlock", kind.name()), what: e.chars().take(300).collect(), replay: json!({"part":"shard-count differential, contention family","config":base.json()}) }),
+                    }
+                }
+                runs += cases.len() as u64 * 4;
+                rep.add(cases.len() as u64, cases.len() as u64 * 5, cases.len() as u64 * 4, 0);
+            }
+        }
+        total += runs;
+        rep.extra("shard_count_contention_family_runs", json!(runs));
+    }
     rep.extra("shard_count_differential_runs", json!(total));
 }
 
